@@ -160,6 +160,19 @@ def sttl_cfgs(tier):
         for cap in (None, 1):
             for dh in (None, 5, 11):
                 add(2, 4, L, cap, dh, 3 if tier == "quick" else 4)
+    # hard_ttl no longer than the store's read latency (soft < hard < L and hard == L): a refresh outlives the
+    # entry's validity, and a read that joins it late gets a refreshed entry that is itself expired
+    slow = ((0, 1, 3), (1, 2, 3), (1, 3, 3), (0, 2, 2), (0, 1, 4))
+    for soft, hard, L in slow:
+        if tier == "quick":
+            add(soft, hard, L, None, None, 3)
+        else:
+            for cap in (None, 1):
+                for dh in (None, 5, 11):
+                    add(soft, hard, L, cap, dh, 3)
+    if tier != "quick":
+        add(0, 1, 3, None, None, 4)
+        add(1, 2, 3, None, None, 4)
     if tier == "quick":
         # hard == soft, always-stale and tiny TTLs, zero / even read latency: one capacity, fewer delete instants
         for soft, hard, L in ((2, 2, 1), (0, 2, 1), (1, 3, 2), (2, 4, 0), (2, 4, 2)):
@@ -278,6 +291,8 @@ def main(tier, seed, only=None):
                            "TTLEviction reads the simulated clock of its cache (clock_func), Random/SampledLRU "
                            "policies use seeded constructors (all seeds of a fixed list are explored)",
                            "policy-tracked keys are observed by draining a deep copy of the policy with evict()",
+                           "soft-TTL: a served entry's age is judged when the cache read behind the response starts: at issue "
+                           "for a hit, no earlier than cache_read_latency before completion for reads that waited",
                            "soft-TTL: the backing store is rewritten every tick by a harness process so that the age "
                            "of a served value is observable; it may delete the key (environment move)",
                            "same-instant completion/issue pairs are treated as concurrent by the register oracle"])
@@ -330,7 +345,7 @@ def main(tier, seed, only=None):
         plan.append(("sttl", {"component": "SoftTTLCache",
                               "soft/hard ttl ticks": sorted({(c["soft"], c["hard"]) for c in cfgs}),
                               "backing_read_latency": sorted({c["L"] for c in cfgs}), "capacity": [None, 1],
-                              "backing delete at tick": [None, 2.5, 5.5],
+                              "backing delete at tick": [None, 3.25, 6.25],
                               "accesses": sorted({c["n"] for c in cfgs}), "grid_ticks": "0..9",
                               "alphabet": STTL_ALPHABET, "configs": len(cfgs)},
                      "sttl", [(c, fk) for c in cfgs for fk in STTL_ALPHABET]))
@@ -377,8 +392,8 @@ def main(tier, seed, only=None):
                       "reads_issued_exactly_at_store_completion_plus_soft_ttl"):
                 d.extra[k] = sum(st.get(k, 0) for st in mine)
     run.notes.append("soft-TTL boundary: the statement forbids serving an entry OLDER than its hard TTL; an entry "
-                     "whose age equals hard_ttl at the instant the read is issued is not older, so the oracle's "
-                     "window [issue - hard_ttl, completion] is closed (the library's own docstring is stricter: "
+                     "whose age equals hard_ttl at the instant it is judged is not older, so the oracle's "
+                     "window [judged - hard_ttl, completion] is closed (the library's own docstring is stricter: "
                      "'Expired: age >= hard_ttl'; that contract is not part of C16 and is not judged). Reads issued "
                      "exactly at store completion + soft_ttl / + hard_ttl are explored and counted in the sttl driver.")
     _confirm(run)
